@@ -58,8 +58,8 @@ def in_fragment(spec: Dict[str, Any]) -> bool:
     if not spec.get("links") or spec.get("api_frameworks"):
         return False
     for g in spec["groups"]:
-        if g["kind"] not in ("root", "derived") or g.get("index") or not g.get("cfw") or g.get("cols_by_opt"):
-            return False
+        if g["kind"] not in ("root", "derived") or g.get("index") or not g.get("cfw") or g.get("cols_by_opt") or g.get("cfws"):
+            return False       # cfws (a group admitting several frameworks): Model/PlannerLM.v, harness/c05_both.py
         if g["kind"] == "derived":
             for d in g["features"].values():
                 if d.get("opt") or d.get("input_opt"):
@@ -290,7 +290,7 @@ class Tables:
         names = sorted({n for g in spec["groups"] for n in (g["cols"] if g["kind"] == "root" else g["features"])})
         self.name_idx = {n: i for i, n in enumerate(names)}
         self.group_idx = {g["name"]: i + 1 for i, g in enumerate(spec["groups"])}
-        cf = sorted({g["cfw"] for g in spec["groups"]})
+        cf = sorted({g["cfw"] for g in spec["groups"]} | {c for g in spec["groups"] for c in (g.get("cfws") or [])})
         self.cfw_idx = {c: i + 1 for i, c in enumerate(cf)}
         self.links = [(LINK_BASE + 4 * i, l["jt"], self.group_idx[l["l"]], self.group_idx[l["r"]], list(l["li"]), list(l["ri"]))
                       for i, l in enumerate(spec["links"])]
